@@ -65,12 +65,15 @@ pub mod decimal_cmp {
     #[verifier::external_body]
     pub const fn i192_one() -> (r: I192) ensures i192_int(r) == 1 { I192 { inner: [1, 0, 0] } }
     #[verifier::external_body]
+    pub const fn i192_zero() -> (r: I192) ensures i192_int(r) == 0 { I192 { inner: [0, 0, 0] } }
+    #[verifier::external_body]
     pub const fn dec_zero() -> (r: Decimal) ensures dec_int(r) == 0 { Decimal { inner: [0, 0, 0] } }
     #[verifier::external_body]
     pub const fn dec_max() -> (r: Decimal) ensures dec_int(r) == dec_max_int() { Decimal { inner: [u64::MAX, u64::MAX, u64::MAX >> 1] } }
 
     impl I192 {
         pub exec const ONE: I192 ensures i192_int(Self::ONE) == 1 { i192_one() }
+        pub exec const ZERO: I192 ensures i192_int(Self::ZERO) == 0 { i192_zero() }
     }
     impl Decimal {
         pub exec const ZERO: Decimal ensures dec_int(Self::ZERO) == 0 { dec_zero() }
